@@ -929,16 +929,21 @@ pub fn g_f(fmt: Fmt, r: &Recipe, lim: Limits) -> Case {
             }
         }
         _ => {
-            // uncompensable: |exponent| >= 2^30 with at most `long` digits
-            let li = len_class(r.sel[2], r.k[0], lim).min(lim.long);
-            let mut int = ascii(&stretch_digits(r, li.max(1), 0xe));
-            if int[0] == b'0' {
-                int[0] = b'7';
+            // uncompensable: |exponent| >= 2^30 (or within a few dozen of the i32 limits) with at most `long`
+            // digits, in three shapes: integer-only, zero-padded fraction, split.  The exponent adjustments
+            // the parser makes (adding the integer digits beyond the 19th, subtracting the fraction digits
+            // and the skipped leading zeros) must saturate, never wrap.
+            let li = len_class(r.sel[2], r.k[0], lim).min(lim.long).max(1);
+            let mut digits = ascii(&stretch_digits(r, li, 0xe));
+            if digits[0] == b'0' {
+                digits[0] = b'7';
+            }
+            if *digits.last().unwrap() == b'0' {
+                *digits.last_mut().unwrap() = b'3';
             }
             let neg = r.k[1] % 2 == 0;
-            let mag = (1i64 << 30) + (r.b % (1u64 << 30)) as i64;
-            let exp = if neg { -mag } else { mag };
-            let exp = match r.k[2] % 4 {
+            let near = (r.b >> 40) % 64; // distance from the i32 limit
+            let exp: i32 = match r.k[2] % 4 {
                 0 => {
                     if neg {
                         i32::MIN
@@ -946,10 +951,39 @@ pub fn g_f(fmt: Fmt, r: &Recipe, lim: Limits) -> Case {
                         i32::MAX
                     }
                 }
-                _ => exp as i32,
+                1 => {
+                    if neg {
+                        i32::MIN + near as i32
+                    } else {
+                        i32::MAX - near as i32
+                    }
+                }
+                _ => {
+                    let mag = (1i64 << 30) + (r.b % (1u64 << 30)) as i64;
+                    (if neg { -mag } else { mag }) as i32
+                }
             };
             let expect = if neg { 0 } else { fmt.inf_bits() };
-            Case { int, frac: vec![], exp, family: "G-F range-end", variant: "uncompensable-exponent", layout: "integer-only", expect: Some(expect) }
+            match r.k[3] % 3 {
+                0 => Case { int: digits, frac: vec![], exp, family: "G-F range-end", variant: "uncompensable-exponent", layout: "integer-only", expect: Some(expect) },
+                1 => {
+                    // fraction with z leading zeros (often few significant digits behind many zeros)
+                    let z = 1 + (r.k[0] as usize >> 8) % 60;
+                    let keep = if r.k[1] % 3 == 0 { digits.len().min(1 + (r.k[1] as usize >> 4) % 19) } else { digits.len() };
+                    let mut frac = vec![b'0'; z];
+                    frac.extend(&digits[..keep]);
+                    if *frac.last().unwrap() == b'0' {
+                        *frac.last_mut().unwrap() = b'9';
+                    }
+                    Case { int: vec![], frac, exp, family: "G-F range-end", variant: "uncompensable-exponent", layout: "fraction-leading-zeros", expect: Some(expect) }
+                }
+                _ => {
+                    let k = 1 + (r.k[0] as usize >> 4) % digits.len().max(2).saturating_sub(1).max(1);
+                    let k = k.min(digits.len());
+                    let frac = digits.split_off(k);
+                    Case { int: digits, frac, exp, family: "G-F range-end", variant: "uncompensable-exponent", layout: "split", expect: Some(expect) }
+                }
+            }
         }
     }
 }
@@ -1359,7 +1393,7 @@ pub fn g_n(r: &Recipe) -> Case {
     let fmt = Fmt::F64;
     // a float in the top ~60 binades
     let emax = (1u64 << fmt.ebits()) - 2;
-    let be = emax - (r.a % 58);
+    let be = emax - (r.a % 40);
     let x = (be << fmt.mbits()) | (r.b & ((1u64 << fmt.mbits()) - 1));
     let h = oracle::hi(fmt, x.min(fmt.inf_bits() - 1));
     // H is an integer here; N0 = H / 10^e
@@ -1368,12 +1402,14 @@ pub fn g_n(r: &Recipe) -> Case {
         hd.push(0);
     }
     let hn = Nat::from_digits(&hd);
-    let e = 135 + (r.k[0] % 12);
+    let e = 135 + (r.k[0] % 12) / 3; // 135..138: the quotient must keep >= 7 limbs
     let (n0, _) = hn.divrem(&Nat::pow_small(10, e));
-    // keep the top limbs, zero `k` limbs below them, put a small non-zero limb at the bottom
+    // keep the top limbs (at least 80 bits of them, so that the value stays within 2^-64 of the boundary and
+    // Eisel-Lemire has to decline), zero `k` limbs below them, put a small limb at the bottom
     let limbs = n0.limbs();
     let k = 1 + (r.k[1] as usize % 8);
-    let keep_from = (k + 1).min(limbs.saturating_sub(1));
+    let max_keep = (n0.bits().saturating_sub(80) / 64) as usize;
+    let keep_from = (k + 1).min(max_keep).max(1).min(limbs.saturating_sub(1));
     let mut l = vec![0u64; limbs];
     for i in keep_from..limbs {
         l[i] = n0.l[i];
